@@ -24,7 +24,7 @@ func init() {
 		Rules: []RuleDef{
 			{ID: "C01.R1", Min: 6, Doc: "route fan-out: the Route.Dispatch call site lies in a range loop over the `routes` slice of the single loaded TableConfig, its receiver is the loop element, it is dominated by the true edge of Match on the same element, the loop exits only by exhaustion, and on every path each Match is followed by at most one Dispatch, only after a true result", Run: c01r1},
 			{ID: "C01.R2", Min: 9, Doc: "destination fan-out policy per route type (range loop over Dests(), send on the loop element's In guarded by that element's Match; all-match: no early exit; first-match: no path from the send back to the loop header; hashing: one send per call) and registry binding of names to constructors", Run: c01r2},
-			{ID: "C01.R4", Min: 10, Doc: "what is matched is what is forwarded: every route/destination filter is evaluated on the current (rewritten) metric name and the line handed to the routes is the single-space join of the same fields (rules C03.R1 and C04.R2 evaluated for this property as well)", Run: func(c *Check) { c03r1(c); c04r2(c) }},
+			{ID: "C01.R4", Min: 10, Doc: "what is matched is what is forwarded: every route/destination filter is evaluated on the current (rewritten) metric name and the line handed to the routes is the single-space join of the same fields and filters are only installed when their construction succeeded (rules C03.R1, C04.R2 and C03.R5 evaluated for this property as well)", Run: func(c *Check) { c03r1(c); c04r2(c); c03r5(c) }},
 			{ID: "C01.R3", Min: 3, Doc: "terminal accounting by path enumeration of the Dispatcher implementation: numIn.Inc exactly once; exactly one terminal class per path; rejecting outcomes are followed by no AddMaybe / Route.Dispatch / send; numUnroutable only on paths without any Route.Dispatch", Run: c01r3},
 		},
 	})
@@ -34,6 +34,43 @@ func init() {
 func snapshotField(v ssa.Value, fieldName string) bool {
 	root, names := fieldPath(v)
 	return len(names) >= 1 && names[len(names)-1] == fieldName && isSnapshotLoad(root)
+}
+
+// snapshotFieldIP: like snapshotField, looking through parameters of helpers (every call site must pass the snapshot's field).
+func snapshotFieldIP(p *Prog, v ssa.Value, fieldName string, depth int) bool {
+	if snapshotField(v, fieldName) {
+		return true
+	}
+	par, ok := strip(v).(*ssa.Parameter)
+	if !ok || depth > 3 {
+		return false
+	}
+	args, ok := p.paramArgs(par)
+	if !ok {
+		return false
+	}
+	for _, a := range args {
+		if !snapshotFieldIP(p, a, fieldName, depth+1) {
+			return false
+		}
+	}
+	return true
+}
+
+// samePkgCallees: fn and the functions of its own package it reaches through static calls.
+func samePkgCallees(p *Prog, fn *ssa.Function) []*ssa.Function {
+	out := []*ssa.Function{fn}
+	seen := map[*ssa.Function]bool{fn: true}
+	for i := 0; i < len(out); i++ {
+		for _, e := range p.CG().Out[out[i]] {
+			if e.Callee == nil || e.Dyn || e.Kind != EdgeCall || seen[e.Callee] || fnPkg(e.Callee) != fnPkg(fn) {
+				continue
+			}
+			seen[e.Callee] = true
+			out = append(out, e.Callee)
+		}
+	}
+	return out
 }
 
 func loopExitsOnlyFromHeader(l *Loop) (bool, *ssa.BasicBlock) {
@@ -48,25 +85,28 @@ func loopExitsOnlyFromHeader(l *Loop) (bool, *ssa.BasicBlock) {
 func c01r1(c *Check) {
 	for _, name := range []string{"Dispatch", "DispatchAggregate"} {
 		fn := c.P.Func("table", "*Table", name)
-		loops := loopsOf(fn)
+		// the fan-out loop may live in a helper of package table called from the entry point
 		var dispatches []*ssa.Call
-		allInstrs(fn, func(in ssa.Instruction) {
-			if call, ok := in.(*ssa.Call); ok && calleeName(call.Common()) == nRouteDispatch {
-				dispatches = append(dispatches, call)
-			}
-		})
+		for _, f := range samePkgCallees(c.P, fn) {
+			allInstrs(f, func(in ssa.Instruction) {
+				if call, ok := in.(*ssa.Call); ok && calleeName(call.Common()) == nRouteDispatch {
+					dispatches = append(dispatches, call)
+				}
+			})
+		}
 		if len(dispatches) == 0 {
-			anchorFail("no Route.Dispatch call in table.%s", name)
+			anchorFail("no Route.Dispatch call in table.%s or the table functions it calls", name)
 		}
 		for i, d := range dispatches {
 			key := fmt.Sprintf("table.%s route-dispatch#%d", name, i)
+			loops := loopsOf(d.Parent())
 			l := innermostLoop(loops, d.Block())
 			if l == nil {
 				c.Violate(key+" loop", c.At(d), "Route.Dispatch is not inside a loop over the route list")
 				continue
 			}
 			sl, idx, ok := rangeLoopOver(l)
-			if !ok || !snapshotField(sl, "routes") {
+			if !ok || !snapshotFieldIP(c.P, sl, "routes", 0) {
 				c.Violate(key+" loop", c.At(d), "the enclosing loop does not range over the `routes` slice of the loaded table snapshot")
 				continue
 			}
